@@ -142,6 +142,19 @@ def replay(pid, path):
     if not calls:
         print('replay file has no re-runnable calls; re-run the check itself')
         return 2
+    if any(c.get('op', '') in ('dyn', 'dynreset', 'dynreads', 'dynfresh', 'vdyn', 'vreset', 'creset', 'cev', 'cret',
+                               'wbegin', 'weffect', 'wsafe', 'wend', 'wcrash') or 'op' not in c for c in calls):
+        print('the failing items are steps of a recorded behaviour (stateful model); re-run the check itself: ./check %s' % pid)
+        return 2
+    if any('univ' in c for c in calls):
+        # calls over a materialised tree: the universes and the routing table are rebuilt first
+        conf = extract_conf(env, extra_tokens=checks_more.VTOKENS)
+        env.run('probe_routing.py', [conf])
+        uni = checks_more._universes(env, conf)
+        calls.sort(key=lambda c: c.get('univ', ''))
+        code_to_spec(rep, env, conf, calls, 'replay of %s' % path, tag='replay',
+                     extra={'SPIL_UNIVERSES': uni, 'SPIL_CONF_JSON': conf}, envs=checks_more.store_envs(4, env), per=40)
+        return rep.done()
     conf = extract_conf(env, extra_tokens=[t for t in tokens_of(calls) if '/' not in t and len(t) < 40])
     code_to_spec(rep, env, conf, calls, 'replay of %s' % path)
     return rep.done()
